@@ -46,7 +46,7 @@ Import ListNotations.
 """
 
 ACT_KINDS = ["box", "box_asym", "discrete", "multidiscrete", "multibinary", "box_squash", "box_sde"]
-OBS_KINDS = ["box1", "box2", "dictc", "disc"]
+OBS_KINDS = ["box1", "box2", "dictc", "disc", "dictd"]
 
 
 def gen_case(rng, i):
@@ -98,6 +98,7 @@ def run_impl(case):
                  "dictc": spaces.Dict({"a": spaces.Box(-M, M, (2,), dtype=np.float32), "b": spaces.Box(-M, M, (1, 3), dtype=np.float32)}),
                  "image": spaces.Box(0, 255, (36, 36, 3), dtype=np.uint8),
                  "dictimg": spaces.Dict({"img": spaces.Box(0, 255, (36, 36, 1), dtype=np.uint8), "a": spaces.Box(-M, M, (2,), dtype=np.float32)}),
+                 "dictd": spaces.Dict({"a": spaces.Box(-M, M, (2,), dtype=np.float32), "k": spaces.Discrete(4096)}),     # a Discrete key in a Dict
                  "disc": spaces.Discrete(4096)}[case["obs"]]
     act = case["act"]
     act_kind = {"box_squash": "box_asym", "box_sde": "box_asym"}.get(act, act)
@@ -211,7 +212,7 @@ def run_impl(case):
     if act == "box_sde":
         kw["use_sde"] = True
         kw["sde_sample_freq"] = case.get("sde_freq", 2)
-    policy = {"dictc": "MultiInputPolicy", "dictimg": "MultiInputPolicy", "image": "CnnPolicy"}.get(case["obs"], "MlpPolicy")
+    policy = {"dictc": "MultiInputPolicy", "dictd": "MultiInputPolicy", "dictimg": "MultiInputPolicy", "image": "CnnPolicy"}.get(case["obs"], "MlpPolicy")
     if case["obs"] == "image":
         pk["features_extractor_kwargs"] = dict(features_dim=8)
     if case["obs"] == "dictimg":
